@@ -191,10 +191,101 @@ def run_history(root, idx, init, ops):
         w.stop()
 
 
+class Untranslatable(Exception):
+    pass
+
+
+def _translate_caches():
+    """The staleness decisions of the two in-process caches, read from the current text (fail-closed Python-ast walk):
+    custom.need_reload / load_custom_kernel_module (one stamp per dependency? which comparison?) and
+    generate.load_template (which comparison?).  Returns (per_file, module_cmp, template_cmp) with the comparisons as
+    Coq terms in [stamp] and [mtime]."""
+    import ast
+
+    def fns(rel):
+        tree = ast.parse(open(os.path.join(common.REPO, "sasmodels", *rel)).read())
+        return {n.name: n for n in tree.body if isinstance(n, ast.FunctionDef)}
+
+    def cmp_term(node, stamp_txt, mtime_txt):
+        if not (isinstance(node, ast.Compare) and len(node.ops) == 1):
+            raise Untranslatable("not a single comparison: %s" % ast.unparse(node))
+        l, r, op = ast.unparse(node.left), ast.unparse(node.comparators[0]), type(node.ops[0])
+        table = {(stamp_txt, mtime_txt, ast.Lt): "Nat.ltb stamp mtime", (mtime_txt, stamp_txt, ast.Gt): "Nat.ltb stamp mtime",
+                 (stamp_txt, mtime_txt, ast.LtE): "Nat.leb stamp mtime", (mtime_txt, stamp_txt, ast.GtE): "Nat.leb stamp mtime",
+                 (stamp_txt, mtime_txt, ast.NotEq): "negb (Nat.eqb stamp mtime)", (mtime_txt, stamp_txt, ast.NotEq): "negb (Nat.eqb stamp mtime)"}
+        if (l, r, op) not in table:
+            raise Untranslatable("comparison %s" % ast.unparse(node))
+        return table[(l, r, op)]
+    cu = fns(("custom", "__init__.py"))
+    if "need_reload" not in cu or "load_custom_kernel_module" not in cu:
+        raise Untranslatable("need_reload / load_custom_kernel_module not found")
+    body = [b for b in cu["need_reload"].body if not (isinstance(b, ast.Expr) and isinstance(b.value, ast.Constant))]
+    txt = [ast.unparse(b) for b in body]
+    if txt[:2] != ["_, cache_times = _MODULE_CACHE.get(path, (None, {}))", "depends = _MODULE_DEPENDS.get(path, [path])"] or len(body) != 3:
+        raise Untranslatable("need_reload: %s" % txt)
+    ret = body[2]
+    ok = isinstance(ret, ast.Return) and isinstance(ret.value, ast.Call) and ast.unparse(ret.value.func) == "any" and len(ret.value.args) == 1 \
+        and isinstance(ret.value.args[0], ast.GeneratorExp) and ast.unparse(ret.value.args[0].generators[0]).strip() == "for p in depends"
+    if not ok:
+        raise Untranslatable("need_reload does not return any(... for p in depends)")
+    module_cmp = cmp_term(ret.value.args[0].elt, "cache_times.get(p, -1)", "os.path.getmtime(p)")
+    ltxt = ast.unparse(cu["load_custom_kernel_module"])
+    if "_MODULE_CACHE[path] = (module, timestamps)" not in ltxt or "if need_reload(path):" not in ltxt or "return _MODULE_CACHE[path][0]" not in ltxt:
+        raise Untranslatable("load_custom_kernel_module does not cache (module, timestamps) under need_reload")
+    if "timestamps = dict(((f, os.path.getmtime(f)) for f in _MODULE_DEPENDS[path]))" in ltxt:
+        per_file = True
+    elif "timestamps" in ltxt and "max(" in ltxt:
+        per_file = False
+    else:
+        raise Untranslatable("how the cache stamps are taken")
+    ge = fns(("generate.py",))
+    if "load_template" not in ge:
+        raise Untranslatable("load_template not found")
+    body = [b for b in ge["load_template"].body if not (isinstance(b, ast.Expr) and isinstance(b.value, ast.Constant))]
+    txt = [ast.unparse(b) for b in body]
+    if len(body) != 4 or txt[0] != "path = joinpath(DATA_PATH, filename)" or txt[1] != "mtime = getmtime(path)" or txt[3] != "return (_template_cache[filename][1], path)" \
+            or not isinstance(body[2], ast.If) or body[2].orelse \
+            or [ast.unparse(b) for b in body[2].body] != ["with open(path) as fid:\n    _template_cache[filename] = (mtime, fid.read(), path)"]:
+        raise Untranslatable("load_template: %s" % txt)
+    test = body[2].test
+    if not (isinstance(test, ast.BoolOp) and isinstance(test.op, ast.Or) and len(test.values) == 2 and ast.unparse(test.values[0]) == "filename not in _template_cache"):
+        raise Untranslatable("load_template test: %s" % ast.unparse(test))
+    template_cmp = cmp_term(test.values[1], "_template_cache[filename][0]", "mtime")
+    return per_file, module_cmp, template_cmp
+
+
+def gen():
+    """Regenerate Gen/C17_code.v from the text of custom/__init__.py and generate.py."""
+    lines = ["(* GENERATED by harness/c17.py from sasmodels/custom/__init__.py (need_reload, load_custom_kernel_module) and sasmodels/generate.py (load_template) *)",
+             "From Coq Require Import Arith Bool.", ""]
+    note = None
+    try:
+        per_file, mcmp, tcmp = _translate_caches()
+    except (Untranslatable, OSError, SyntaxError) as exc:
+        note = "%s: %s" % (type(exc).__name__, exc)
+        per_file, mcmp, tcmp = True, "Nat.ltb stamp mtime", "Nat.ltb stamp mtime"
+    lines.append("Definition translated : bool := %s." % ("true" if note is None else "false"))
+    if note:
+        lines.append("(* not translated: %s *)" % note.replace("*)", "* )"))
+    lines += ["(* one cache stamp per dependency (true) or a single newest-of-all stamp (false) *)",
+              "Definition code_per_file : bool := %s." % ("true" if per_file else "false"),
+              "(* a cached module is stale for a dependency when ... *)",
+              "Definition code_module_stale (stamp mtime : nat) : bool := %s." % mcmp,
+              "(* a cached template is stale when ... *)",
+              "Definition code_template_stale (stamp mtime : nat) : bool := %s." % tcmp, ""]
+    common.write_if_changed(os.path.join(common.THEORIES, "Gen", "C17_code.v"), "\n".join(lines))
+    return note
+
+
 def main(run):
     rng = random.Random(run.seed * 271 + 17)
     thorough = run.tier == "thorough"
-    run.prove(["C17/Property.v"])
+    note = []
+    run.prove(["C17/Property.v"], gen=lambda: note.append(gen()))
+    if note and note[0]:
+        run.notes.append("cache decisions not translated (%s): the source-text obligations C17_code_* are vacuous in this run, the behavioural tie decides" % note[0])
+    else:
+        run.notes.append("the staleness decisions of need_reload / load_custom_kernel_module / load_template translated from the current text (Gen/C17_code.v) and proved to be the model's (C17_code_decisions), so C17_load_current speaks about the code's decisions")
     root = run.scratch.sub("c17")
     hist = []
     # corpus: constant change, included-file change, precision switch, revert, fresh process, template edits; then the
